@@ -119,8 +119,29 @@ func lookupFieldTags(field reflect.StructField, parentJSONName string, config *D
 	if len(newParentJSONName) == 0 {
 		newParentJSONName = strings.TrimPrefix(parentJSONName+"."+field.Name, ".")
 	}
+	if embeddedWithoutJSONName(field) {
+		newParentJSONName = parentJSONName
+	}
 
 	return tagInfos, newParentJSONName, needValidate
+}
+
+// embeddedWithoutJSONName reports whether field is an embedded struct that has no json
+// name of its own: the body decoder flattens it (encoding/json rules), its members are
+// keys of the enclosing object and add no element to the path.
+func embeddedWithoutJSONName(field reflect.StructField) bool {
+	if !field.Anonymous {
+		return false
+	}
+	t := field.Type
+	for t.Kind() == reflect.Ptr {
+		t = t.Elem()
+	}
+	if t.Kind() != reflect.Struct {
+		return false
+	}
+	name, _ := head(field.Tag.Get(jsonTag), ",")
+	return name == ""
 }
 
 // JSONName joins the names on the way to a field with '.'; a '.' (or '\') that is part
@@ -167,6 +188,9 @@ func getDefaultFieldTags(field reflect.StructField, parentJSONName string) (tagI
 		tagInfos = append(tagInfos, TagInfo{Key: tag, Value: field.Name, Default: defaultVal, JSONName: jsonName})
 	}
 	newParentJSONName = strings.TrimPrefix(parentJSONName+"."+field.Name, ".")
+	if embeddedWithoutJSONName(field) {
+		newParentJSONName = parentJSONName
+	}
 
 	return
 }
